@@ -73,19 +73,80 @@ def normal_form(errors):
     return out
 
 
+class _Watchdog(BaseException):
+    pass
+
+
+def _on_alarm(sig, frm):
+    raise _Watchdog()
+
+
+WATCHDOG_S = 40
+
+
+class LexerHang(Exception):
+    pass
+
+
 def lex(name, text):
-    """Tokenizer alone.  Returns (tokens, file).  Exceptions propagate."""
+    """Tokenizer alone.  Returns (tokens, file).  Exceptions propagate; a spin is turned into LexerHang by a watchdog."""
+    import signal
     File, Lexer, _, _, _ = _imports()
     f = File(name, text)
-    toks = list(Lexer(f))
+    try:
+        old_handler = signal.signal(signal.SIGALRM, _on_alarm)
+        signal.setitimer(signal.ITIMER_REAL, WATCHDOG_S)
+    except (ValueError, OSError):
+        return list(Lexer(f)), f
+    try:
+        toks = list(Lexer(f))
+    except _Watchdog:
+        raise LexerHang("tokenizer gave no answer within %d s" % WATCHDOG_S)
+    finally:
+        signal.setitimer(signal.ITIMER_REAL, 0)
+        signal.signal(signal.SIGALRM, old_handler)
     return toks, f
 
 
+
+
 def analyse(name, text, debug=0, R=None, registry=None, keep_tokens=False):
+    """One file through lexer + registry.  A wall-clock watchdog keeps a worker alive if the code under test spins
+    (whether that is a property violation is C05's business, decided there by a step count): the result is then a CRASH
+    with the pseudo exception type 'Hang'."""
+    import signal
     File, Lexer, Context, Registry, CParsingError = _imports()
     r = Result()
     buf = io.StringIO()
     f = File(name, text)
+    use_alarm = False
+    try:
+        old_handler = signal.signal(signal.SIGALRM, _on_alarm)
+        signal.setitimer(signal.ITIMER_REAL, WATCHDOG_S)
+        use_alarm = True
+    except (ValueError, OSError):
+        pass   # not in the main thread: no watchdog
+    try:
+        try:
+            _analyse_inner(r, buf, f, name, text, debug, R, registry, keep_tokens, Lexer, Context, Registry, CParsingError)
+        except _Watchdog:
+            r.status = "CRASH"
+            r.crash = ("Hang", "watchdog", "-", "no answer within %d s" % WATCHDOG_S)
+    finally:
+        if use_alarm:
+            signal.setitimer(signal.ITIMER_REAL, 0)
+            signal.signal(signal.SIGALRM, old_handler)
+    r.stdout = buf.getvalue()
+    r.errors = f.errors
+    try:
+        r.diags = normal_form(f.errors)
+    except Exception as e:  # sorting may itself fail
+        r.status = "CRASH"
+        r.crash = crash_signature(e)
+    return r
+
+
+def _analyse_inner(r, buf, f, name, text, debug, R, registry, keep_tokens, Lexer, Context, Registry, CParsingError):
     try:
         with contextlib.redirect_stdout(buf):
             toks = list(Lexer(f))
@@ -104,14 +165,6 @@ def analyse(name, text, debug=0, R=None, registry=None, keep_tokens=False):
     except Exception as e:  # noqa: classified, not swallowed
         r.status = "CRASH"
         r.crash = crash_signature(e)
-    r.stdout = buf.getvalue()
-    r.errors = f.errors
-    try:
-        r.diags = normal_form(f.errors)
-    except Exception as e:  # sorting may itself fail
-        r.status = "CRASH"
-        r.crash = crash_signature(e)
-    return r
 
 
 # ---------------------------------------------------------------------------------------------
